@@ -145,8 +145,13 @@ pub fn run() {
 		let n = b.len();
 		(0..n).map(move |cut| (b.clone(), label.clone(), cut))
 	});
-	par_each(it, |(bytes, label, cut), local| {
-		for (skip, hash) in [(false, false), (true, false), (false, true), (true, true)] {
+	let quick = cx.quick();
+	par_each(it, move |(bytes, label, cut), local| {
+		for (skip, hash) in [(false, false), (true, true), (true, false), (false, true)] {
+			// quick: the mixed option pairs only at every third cut
+			if quick && skip != hash && cut % 3 != 0 {
+				continue;
+			}
 			let mut p = P { skip, hash, class: "slp", ..Default::default() };
 			p.n[0] = cut as i64;
 			eval_case("trunc_slp", o_trunc_slp, &bytes, &p, || format!("{} cut at {}", label, cut), local);
